@@ -886,6 +886,9 @@ func c11GenOne(r *Rng, sameSecondFamily, skew bool) string {
 	// a timeline that begins right at osm.CommitInfoStart: every version has a commit time, but element time
 	// stamps (a little before the commit) may still lie before the start of commit information
 	boundary := commitRegime && r.Chance(8)
+	// timestamp regime with a commit time recorded all the same, one that lies before osm.CommitInfoStart and differs
+	// from the element's timestamp (a replayed import): such a commit time carries no information and is ignored
+	earlyCommit := !commitRegime && r.Chance(25)
 	if boundary {
 		t = c11Start + int64(r.Intn(3))
 	}
@@ -916,6 +919,9 @@ func c11GenOne(r *Rng, sameSecondFamily, skew bool) string {
 		}
 		if boundary {
 			ch.ts = t - int64(r.Intn(40))
+		}
+		if earlyCommit && r.Chance(70) {
+			ch.hasCommit, ch.commit = true, t+int64(1+r.Intn(3000))
 		}
 		if kind == "rel" && fid%2 == 1 {
 			ch.lat, ch.lon = 0, 0
